@@ -633,21 +633,29 @@ func ruleExpire(r *Report) {
 				}
 				return false, false
 			})
-			afterG := edgeGuarded(del.Block(), func(c ssa.Value) (bool, bool) {
-				call, ok := c.(*ssa.Call)
-				if !ok || !calleeIs(&call.Call, "(time.Time).After") {
-					return false, false
-				}
-				// now.After(expiresAt): receiver from time.Now, argument = ExpiresAt's first result
-				recvNow := dependsOn(freeVarValue(norm(call.Call.Args[0])), func(v ssa.Value) bool {
-					cl, ok := v.(*ssa.Call)
+			isNow := func(v ssa.Value) bool {
+				return dependsOn(freeVarValue(norm(v)), func(x ssa.Value) bool {
+					cl, ok := x.(*ssa.Call)
 					return ok && calleeIs(&cl.Call, "time.Now")
 				}, 8)
-				argExp := false
-				if cl, ok := extractOf(freeVarValue(norm(call.Call.Args[1])), 0); ok && calleeIs(&cl.Call, "(column.rwTTL).ExpiresAt") {
-					argExp = true
+			}
+			isDeadline := func(v ssa.Value) bool {
+				cl, ok := extractOf(freeVarValue(norm(v)), 0)
+				return ok && calleeIs(&cl.Call, "(column.rwTTL).ExpiresAt")
+			}
+			afterG := edgeGuarded(del.Block(), func(c ssa.Value) (bool, bool) {
+				call, ok := c.(*ssa.Call)
+				if !ok {
+					return false, false
 				}
-				return recvNow && argExp, true
+				// now.After(deadline)  ≡  deadline.Before(now)
+				switch {
+				case calleeIs(&call.Call, "(time.Time).After"):
+					return isNow(call.Call.Args[0]) && isDeadline(call.Call.Args[1]), true
+				case calleeIs(&call.Call, "(time.Time).Before"):
+					return isDeadline(call.Call.Args[0]) && isNow(call.Call.Args[1]), true
+				}
+				return false, false
 			})
 			// deletes the row being visited
 			same := len(delFn.Params) == 1 && sameExpr(del.Call.Args[1], delFn.Params[0])
